@@ -252,6 +252,12 @@ func (c *Ctx) WhoMay(rule, what string, sites []Site, allow map[string]string) {
 		if _, ok := allow[top]; ok {
 			used[top] = true
 			c.ok(rule, key, instrPos(s.Instr), fmt.Sprintf("%s: %s site in %s (allowed: %s)", what, s.Kind, top, allow[top]))
+		} else if rows, ok := c.whoMayRows(TopLevel(s.Fn), allow, 0, map[*ssa.Function]bool{}); ok {
+			// the construct sits in an unexported helper that only allowed functions call
+			for _, r := range rows {
+				used[r] = true
+			}
+			c.ok(rule, fmt.Sprintf("%s|%s|%s", rule, what, rows[0]), instrPos(s.Instr), fmt.Sprintf("%s: %s site in helper %s, reachable only from allowed %s", what, s.Kind, top, strings.Join(rows, ", ")))
 		} else {
 			c.violation(rule, key, instrPos(s.Instr), fmt.Sprintf("%s: %s site in %s is not in the allowed set", what, s.Kind, top))
 		}
@@ -266,6 +272,50 @@ func (c *Ctx) WhoMay(rule, what string, sites []Site, allow map[string]string) {
 			c.unresolved(rule, what+"|"+k, "allowed site no longer exists (table row stale)")
 		}
 	}
+}
+
+// whoMayRows: the table rows a site inside f counts for when f itself is not
+// listed — f must be an unexported function that is only ever called directly
+// (never taken as a value), and every caller must (transitively, depth ≤ 3)
+// resolve to listed functions.
+func (c *Ctx) whoMayRows(f *ssa.Function, allow map[string]string, depth int, seen map[*ssa.Function]bool) ([]string, bool) {
+	if f == nil || depth > 3 || seen[f] {
+		return nil, false
+	}
+	seen[f] = true
+	fo := funcObjOf(f)
+	if fo == nil || fo.Exported() {
+		return nil, false
+	}
+	sites := c.CallSites(fo)
+	if len(sites) == 0 {
+		return nil, false
+	}
+	set := map[string]bool{}
+	for _, s := range sites {
+		if s.Kind != "call" && s.Kind != "defer" && s.Kind != "go" {
+			return nil, false
+		}
+		top := TopLevel(s.Fn)
+		k := fnKey(top)
+		if _, ok := allow[k]; ok {
+			set[k] = true
+			continue
+		}
+		rows, ok := c.whoMayRows(top, allow, depth+1, seen)
+		if !ok {
+			return nil, false
+		}
+		for _, r := range rows {
+			set[r] = true
+		}
+	}
+	var out []string
+	for k := range set {
+		out = append(out, k)
+	}
+	sort.Strings(out)
+	return out, len(out) > 0
 }
 
 // ---------------------------------------------------------------------------
@@ -332,6 +382,7 @@ func Origins(e *Expr, transparent func(*Expr) []int) []*Expr {
 // OriginCheck (E4): every leaf origin of v must match one of allowed.
 func (c *Ctx) OriginCheck(rule, key string, at ssa.Instruction, what string, v ssa.Value, transparent func(*Expr) []int, allowed ...Pat) bool {
 	leaves := Origins(Desc(v), transparent)
+	leaves = expandHelperLeaves(leaves, transparent, allowed, 0)
 	var bad []string
 	for _, l := range leaves {
 		m := false
@@ -385,4 +436,66 @@ func callArg(in ssa.Instruction, i int) ssa.Value {
 		return cc.Args[i]
 	}
 	return nil
+}
+
+// expandHelperLeaves: a leaf origin that is the result of an unexported
+// same-package helper (a computation extracted into its own function) and is
+// not itself an allowed producer is replaced by the origins of what the helper
+// returns; the helper's parameters resolve to the call's arguments.
+func expandHelperLeaves(leaves []*Expr, transparent func(*Expr) []int, allowed []Pat, depth int) []*Expr {
+	if depth > 3 {
+		return leaves
+	}
+	var out []*Expr
+	for _, l := range leaves {
+		ok := false
+		for _, a := range allowed {
+			if a(l) {
+				ok = true
+				break
+			}
+		}
+		if ok || (l.K != ECall && l.K != EExtract) {
+			out = append(out, l)
+			continue
+		}
+		call, idx := l, 0
+		if l.K == EExtract {
+			call, idx = l.X, l.Idx
+		}
+		cv, _ := call.V.(*ssa.Call)
+		if cv == nil {
+			out = append(out, l)
+			continue
+		}
+		h := localHelper(cv.Parent(), &cv.Call)
+		if h == nil || len(h.Blocks) == 0 {
+			out = append(out, l)
+			continue
+		}
+		var sub []*Expr
+		n := 0
+		for _, b := range h.Blocks {
+			for _, in := range b.Instrs {
+				r, isRet := in.(*ssa.Return)
+				if !isRet || idx >= len(r.Results) {
+					continue
+				}
+				n++
+				for _, rl := range Origins(Desc(r.Results[idx]), transparent) {
+					if rl.K == EParam && rl.Idx >= 0 && rl.Idx < len(cv.Call.Args) {
+						sub = append(sub, Origins(Desc(cv.Call.Args[rl.Idx]), transparent)...)
+					} else {
+						sub = append(sub, rl)
+					}
+				}
+			}
+		}
+		if n == 0 {
+			out = append(out, l)
+			continue
+		}
+		out = append(out, expandHelperLeaves(sub, transparent, allowed, depth+1)...)
+	}
+	return out
 }
